@@ -185,6 +185,28 @@ func judgeC13(c *Ctx, sc *Scenario) *Violation {
 				mw.Inv.Env = map[string]string{"GIT_DIR": filepath.Join(lsite.GitDir, "worktrees", "linked")}
 				modes = append(modes, mode{name: "GIT_DIR = git dir of the linked worktree", sc: mw, site: &ls})
 				c.Stats.Probe("mode-linked-worktree")
+				// what is per worktree stays per worktree: HEAD given as a ROOT
+				// is the linked worktree's own (detached) HEAD, however the
+				// worktree is addressed
+				lex := lw.Expect([]string{firstCommit})
+				for _, hsc := range []Scenario{ml, mw} {
+					hsc.Inv.Args = append(append([]string(nil), hsc.Inv.Args...), "HEAD")
+					hr := RunB(&hsc, &ls, BOpts{})
+					c.Stats.CLIRuns++
+					c.Stats.Probe("linked-worktree-HEAD-as-ROOT-runs")
+					if hr.Panic != "" || hr.Hang || hr.Failed {
+						return &Violation{"C13/run-failed", fmt.Sprintf("linked worktree, ROOT HEAD (cwd %s): %s %s %s", hsc.Inv.Cwd, hr.Err, firstLines(hr.Panic, 6), firstBytes(hr.Stderr, 300))}
+					}
+					hg, err := ParseJSONObject(hr.Stdout)
+					if err != nil {
+						return &Violation{"C13/bad-json", err.Error()}
+					}
+					if bad := lex.CompareV1(hg, AllNumericFields); len(bad) > 0 {
+						sort.Strings(bad)
+						return &Violation{"C13/per-worktree-HEAD:" + strings.SplitN(bad[0], ":", 2)[0],
+							fmt.Sprintf("ROOT HEAD in a linked worktree whose HEAD is %s (cwd %s): %s", firstCommit, hsc.Inv.Cwd, strings.Join(bad, "; "))}
+					}
+				}
 			} else {
 				c.Stats.Probe("git-worktree-add-failed")
 			}
@@ -739,7 +761,7 @@ func init() {
 		"in-process variants (C17 only)": "engine A built with -race: same delivery order under different chunking, delays, pipe capacities and flush policies",
 	}
 	Register(&Prop{ID: "C13", Check: checkC13, Replay: judgeC13, Components: compB,
-		Rule: "engine B only (real git semantics are the point): generated repositories with reflogs, replace references for commits / trees / blobs and graft lines that add, drop or redirect parents; the real binary is started at the top of the work tree, in a subdirectory, inside .git, with GIT_DIR absolute and relative from an unrelated directory, on a bare / non-bare twin, in a linked worktree, in a subdirectory entered through a symbolic link (with and without a relative GIT_DIR containing ..) and as `git -C <dir> sizer`; one world in three spells out core.useReplaceRefs=true in one of four configuration scopes; stdout must be byte-identical across modes and the numbers equal the model evaluated on the stored graph (refs/replace/* being ordinary references); a real `git clone --depth 1` of the repository must be refused with an error and no report. non-trivial: the world carries replace refs or grafts; distinct by scenario hash"})
+		Rule: "engine B only (real git semantics are the point): generated repositories with reflogs, replace references for commits / trees / blobs and graft lines that add, drop or redirect parents; the real binary is started at the top of the work tree, in a subdirectory, inside .git, with GIT_DIR absolute and relative from an unrelated directory, on a bare / non-bare twin, in a linked worktree (also with the worktree's own detached HEAD as ROOT), in a subdirectory entered through a symbolic link (with and without a relative GIT_DIR containing ..) and as `git -C <dir> sizer`; one world in three spells out core.useReplaceRefs=true in one of four configuration scopes; stdout must be byte-identical across modes and the numbers equal the model evaluated on the stored graph (refs/replace/* being ordinary references); a real `git clone --depth 1` of the repository must be refused with an error and no report. non-trivial: the world carries replace refs or grafts; distinct by scenario hash"})
 	Register(&Prop{ID: "C17", Check: checkC17, Replay: judgeC17, Components: compB,
 		Rule: "generated repositories (loose / packed-refs / repacked / bitmapped pack + loose; one in five with a flat directory of 1000-1900 files changed in successive commits, one in five with a chain of 100-180 commits; reflogs, an index and untracked files in the work tree) x command lines of every format; the real -race binary runs at GOMAXPROCS 1 and 16, the plain binary 12 more times at GOMAXPROCS 2/3/4/5/8/16 with proxy re-chunking and delays on every other run (two thirds of the worlds carry deliberate ties: equally large maximal blobs side by side, equal tag depths), then the -race in-process engine runs 3 plan variants (same delivery order, different chunking / delays / pipe capacities / flush policies) and 8 goroutine schedules (yield counts at yield points compiled into copies of git-sizer's sources before every lock, channel operation and after every go statement): stdout byte-identical across all runs, any race-detector report is a violation, and a digest of every path of the repository (type, mode, size, SHA-256) and of $HOME is unchanged afterwards. Goroutine choice inside the real binary is sampled; inside the in-process engine it is decided by the schedule at GOMAXPROCS=1. distinct by scenario hash"})
 }
